@@ -903,6 +903,9 @@ func histStream(p profile) streamFn {
 		} else if tier == "widen" {
 			n = p.histQ * 4
 		}
+		if p.prop == "C02" {
+			clnProbe(sink)
+		}
 		for i := 0; i < n; i++ {
 			cfg := cfgT{feePct: []uint64{0, 1, 1, 2, 5}[rng.Intn(5)], fee0: p.fees[rng.Intn(len(p.fees))]}
 			if rng.Intn(100) < p.mppProb {
